@@ -8,7 +8,9 @@ abstract objects are *canonical lower-case identifiers*; case variants only exis
 
 project = {
   "mods":  [ {"name": "m1", "file": "f1", "imports": [IMPORT...], "vars": ["v_m1", ...],
-              "params": [...]   # the subset of vars that are named constants (PARAMETER); never `targets`
+              "params": [...],  # the subset of vars that are named constants (PARAMETER); never `targets`
+              "ifaces": [ {"name": "g_m1", "procs": ["p3"]} ]   # generic interfaces over procedures of this module
+                                # (InterfaceItem `m1#g_m1`); called only via `use m1, only: g_m1` inside the caller
              } , ... ],
   "procs": [ {"name": "p1", "mod": "m1" | "" (free procedure), "file": "f1",
               "imports": [IMPORT...],           # USE statements inside the procedure
@@ -103,7 +105,8 @@ def normalize_config(c):
 
 def normalize_project(p):
     mods = [{'name': m['name'], 'file': m.get('file', m['name']), 'imports': [dict(mod=i['mod'], only=list(i['only'])) for i in m.get('imports', [])],
-             'vars': list(m.get('vars', [])), 'params': list(m.get('params', []))} for m in p.get('mods', [])]
+             'vars': list(m.get('vars', [])), 'params': list(m.get('params', [])),
+             'ifaces': [{'name': i['name'], 'procs': list(i['procs'])} for i in m.get('ifaces', [])]} for m in p.get('mods', [])]
     modfile = {m['name']: m['file'] for m in mods}
     procs = []
     for r in p.get('procs', []):
@@ -285,6 +288,11 @@ def render_project(project, root, rng=None, plain=False, suffixes=None, subdirs=
                     lines.append(f'  {lay.kw("integer")}, {lay.kw("parameter")} :: {lay.case(v, "def")} = 1')
                 else:
                     lines.append(f'  {lay.kw("integer")} :: {lay.case(v, "def")} = 1')
+            for itf in m.get('ifaces', []):
+                lines.append(f'  {lay.kw("interface")} {lay.case(itf["name"], "def")}')
+                for pn in itf['procs']:
+                    lines.append(f'    {lay.kw("module procedure") if lay.coin(0.5) or lay.plain else lay.kw("procedure")} {lay.case(pn, "use")}')
+                lines.append(f'  {lay.kw("end interface")} {lay.case(itf["name"], "def")}')
             mprocs = [p for p in project['procs'] if p['mod'] == m['name']]
             if mprocs:
                 lines.append(lay.kw('contains'))
@@ -400,6 +408,8 @@ def chars_table(project):
         names.add(m['name'])
         for v in m['vars']:
             names.update({v, f"{m['name']}#{v}"})
+        for i in m.get('ifaces', []):
+            names.update({i['name'], f"{m['name']}#{i['name']}"})
     for p in project['procs']:
         names.update({p['name'], f"{p['mod']}#{p['name']}"})
         if p['mod']:
@@ -417,7 +427,7 @@ def tla_project(project):
 # ---------------------------------------------------------------------------------------------
 # seeded generator of larger projects (<= 8 routines over several files)
 
-def random_project(rng, nprocs=None, nmods=None, dup_names=False):
+def random_project(rng, nprocs=None, nmods=None, dup_names=False, ifaces=False):
     """Random project inside the modelled fragment, acyclic by construction: units are laid out in a
     linear order (file by file), procedures are numbered in that order and only call / import forward
     (plus self recursion).  Legality is re-checked by TLC (LegalProject /\\ AcyclicProject)."""
@@ -515,7 +525,48 @@ def random_project(rng, nprocs=None, nmods=None, dup_names=False):
         for m2 in mods:
             if unitpos[m2['name']] > unitpos[m['name']] and rng.random() < 0.15:
                 m['imports'].append({'mod': m2['name'], 'only': rng.choice([[], [m2['vars'][0]]])})
+    if ifaces:
+        _add_interface(rng, mods, procs)
     return normalize_project({'mods': mods, 'procs': procs})
+
+
+def _add_interface(rng, mods, procs):
+    """Give one module a generic interface g_<mod> over one of its procedures T; some earlier callers from other scopes
+    call the interface (`use <mod>, only: g_<mod>` in the caller) while T stays (or becomes) directly called by an
+    even earlier procedure -- an InterfaceItem on one path to T, a direct edge on another."""
+    cands = [t for t in procs if t['mod'] and procs.index(t) >= 2 and
+             sum(1 for q in procs if q['name'] == t['name']) == 1]
+    if not cands:
+        return
+    t = rng.choice(cands)
+    ti = procs.index(t)
+    gname = f"g_{t['mod']}"
+    outside = [q for q in procs[:ti] if q['mod'] != t['mod']]
+    if not outside:
+        return
+    mrec = next(m for m in mods if m['name'] == t['mod'])
+    mrec.setdefault('ifaces', []).append({'name': gname, 'procs': [t['name']]})
+    via = rng.sample(outside[1:] or outside, min(len(outside[1:] or outside), rng.choice([1, 1, 2])))
+    for q in via:
+        q['calls'] = [c for c in q['calls'] if c != t['name']]
+        q['calls'].insert(rng.randint(0, len(q['calls'])), gname)
+        keep = []
+        for im in q['imports']:
+            if im['mod'] == t['mod'] and t['name'] in im['only']:
+                im['only'] = [x for x in im['only'] if x != t['name']]
+                if not im['only']:
+                    continue        # the ONLY list became empty: drop the statement (an empty list means `use m`)
+            keep.append(im)
+        q['imports'] = keep
+        q['imports'].append({'mod': t['mod'], 'only': [gname]})
+    # a shallower procedure calls T directly
+    d = outside[0]
+    if d not in via and t['name'] not in d['calls']:
+        d['calls'].insert(0, t['name'])
+        if not any(im['mod'] == t['mod'] and (t['name'] in im['only'] or not im['only']) for im in d['imports']):
+            hostm = next((m for m in mods if m['name'] == d['mod']), None)
+            if not (hostm and any(im['mod'] == t['mod'] and (t['name'] in im['only'] or not im['only']) for im in hostm['imports'])):
+                d['imports'].append({'mod': t['mod'], 'only': [t['name']]})
 
 
 def random_config(rng, project):
@@ -631,7 +682,7 @@ def random_config(rng, project):
 # ---------------------------------------------------------------------------------------------
 # case pools shared by the scheduler properties (TLC is asked for the small cases and for legality)
 
-def gen_small(ctx, n, np_):
+def gen_small(ctx, n, np_, ifaces=False):
     """n random members of the small-scope universe of spec/SchedUniverse.tla with NP = np_ procedures,
     sampled and printed by TLC (Gen_Sched, -simulate): list of {"P", "C", "so", "po", "st"}."""
     import json
@@ -639,6 +690,8 @@ def gen_small(ctx, n, np_):
     gcfg = os.path.join(ctx.work, f'Gen_Sched_{np_}.cfg')
     with open(os.path.join(core.SPEC, 'Gen_Sched.cfg')) as fh:
         text = fh.read().replace('NP = 4', f'NP = {np_}')
+    if ifaces:      # also projects with a generic interface between a caller and the last procedure (opt-in: C21/C22)
+        text = text.replace('Ifcs = {FALSE}', 'Ifcs = {FALSE, TRUE}')
     with open(gcfg, 'w') as fh:
         fh.write(text)
     r = ctx.tlc('Gen_Sched', gcfg, simulate='num=1', depth=int(n * 1.4) + 2, seed=ctx.seed + 100 + np_, timeout=900)
@@ -661,13 +714,13 @@ def prefilter(ctx, pairs):
     return [pc for i, pc in enumerate(pairs) if verdicts[i][1] != 'illegal-input']
 
 
-def seeded_pairs(ctx, n, rng=None):
+def seeded_pairs(ctx, n, rng=None, ifaces=False):
     """n legal (project, config) pairs from the seeded python generator (<= 8 routines, several files)."""
     from . import core
     rng = rng or ctx.rng
     cands = []
     for i in range(int(n * 1.5) + 5):
-        p = random_project(rng, dup_names=(i % 6 == 0))
+        p = random_project(rng, dup_names=(i % 6 == 0), ifaces=ifaces and i % 3 == 1)
         cands.append((p, random_config(rng, p)))
     legal = prefilter(ctx, cands)
     if len(legal) < n * 0.6:
